@@ -154,4 +154,11 @@ emit(coroutine.resume(outer)); emit(coroutine.resume(outer)); emit(coroutine.res
 	`local co = coroutine.create(function() for k in function() return coroutine.yield(5) end do emit("k", k); break end; return 9 end); emit(coroutine.resume(co)); emit(coroutine.resume(co, 2)); emit(coroutine.status(co))`,
 	`local co = coroutine.wrap(function() local ok = pcall(error, "x"); local v = coroutine.yield(ok); local ok2, e = pcall(function() error("y", 0) end); coroutine.yield(v, ok2, e); return "end" end); emit(co()); emit(co(4)); emit(co())`,
 	`local w = coroutine.wrap(coroutine.yield); emit(w(1)); emit(pcall(w, 2, 3)); emit(pcall(w, 3)); local co = coroutine.create(coroutine.yield); emit(coroutine.resume(co, 1, 2)); emit(coroutine.status(co)); emit(coroutine.resume(co, 7, 8)); emit(coroutine.status(co))`,
+	// metamethod handlers that are callable tables (/repo 5c2f2ce), unary minus on numeric strings (46ac53a)
+	`local H = setmetatable({}, {__call = function(self, a, b) emit("H", type(self), type(a), type(b)) return "handled" end}); local mt = {__add = H, __sub = H, __mul = H, __div = H, __mod = H, __pow = H, __concat = H, __unm = H, __len = H}; local x = setmetatable({}, mt); emit(x + 1); emit(1 - x); emit(x * x); emit(x / 2, x % 2, x ^ 2); emit(x .. "a", "a" .. x); emit(-x); emit(#x)`,
+	`local H = setmetatable({}, {__call = function(self, a, b) emit("H") return 1 end}); local mt = {__eq = H, __lt = H, __le = H}; local x, y = setmetatable({}, mt), setmetatable({}, mt); emit(x == y); emit(x ~= y); emit(x < y); emit(x <= y); emit(x > y)`,
+	`local H = setmetatable({}, {__call = function(self, a, b) emit("lt") return false end}); local mt = {__lt = H}; local x, y = setmetatable({}, mt), setmetatable({}, mt); emit(x <= y, x >= y)`,
+	`local H = setmetatable({}, {__call = function(self, o) emit("ts", type(o)) return "str!" end}); local x = setmetatable({}, {__tostring = H}); emit(tostring(x))`,
+	`local x = setmetatable({}, {__unm = 5, __add = true, __concat = "s", __len = 0}); emit(pcall(function() return -x end)); emit(pcall(function() return x + 1 end)); emit(pcall(function() return x .. "a" end)); emit(pcall(function() return #x end))`,
+	`local smt = getmetatable(""); smt.__unm = function(a) emit("str-unm", a) return "mm" end; emit(-"10", -"2.5"); emit(pcall(function() return -"abc" end)); smt.__unm = nil; emit(pcall(function() return -"abc" end))`,
 }
